@@ -134,6 +134,85 @@ def gen_shapes(rng, nodes, lits, n_shapes=6, max_depth_refs=True, recursive=Fals
     return shapes
 
 
+# ------------------------------------------------------------------ templates for specific mechanisms
+def _uid(rng):
+    return "%06x" % rng.getrandbits(24)
+
+
+def tmpl_qualified(rng, nodes, lits, deep=0, easy=False):
+    """a parent with 2-3 sibling property shapes carrying sh:qualifiedValueShape (value shapes drawn from a
+    small pool, so two siblings may name the same one), some with sh:qualifiedValueShapesDisjoint"""
+    u = _uid(rng)
+    iri_nodes = [n for n in nodes if isinstance(n, URIRef)]
+    pool = []
+    for k in range(2):
+        v = new_shape(EX["QV%s_%d" % (u, k)] if rng.random() < 0.6 else BNode("qv%s_%d" % (u, k)), None)
+        if not (easy and k == 0):
+            v["comps"].append(gen_leaf(rng, False, nodes, lits))
+        pool.append(v)
+    extra = []
+    if deep:
+        # make one value shape the head of a chain of sh:node links
+        cur = pool[1]
+        for j in range(deep):
+            nxt = new_shape(BNode("qc%s_%d" % (u, j)), None)
+            cur["comps"].append(("node", [nxt["id"]]))
+            extra.append(nxt)
+            cur = nxt
+        cur["comps"].append(gen_leaf(rng, False, nodes, lits))
+    parent = new_shape(EX["QP%s" % u], None)
+    parent["targets"]["nodes"] = rng.sample(iri_nodes, min(2, len(iri_nodes)))
+    props = []
+    for k in range(rng.randint(2, 3)):
+        ps = new_shape(BNode("qp%s_%d" % (u, k)), ("pred", rng.choice(PREDS[:2])))
+        ps["sev"] = rng.choice([None, None, SH.Warning, SH.Info])
+        qmin = rng.choice([None, 0, 1, 2])
+        qmax = rng.choice([None, 0, 1, 2])
+        if qmin is None and qmax is None:
+            qmin = 1
+        if easy:
+            ps["comps"].append(("qualified", [pool[k % 2]["id"]], qmin, qmax, True))
+        else:
+            ps["comps"].append(("qualified", [rng.choice(pool)["id"]], qmin, qmax, rng.random() < 0.7))
+        props.append(ps)
+    parent["comps"].append(("property", [p["id"] for p in props]))
+    return [parent] + props + pool + extra
+
+
+def tmpl_severity(rng, nodes, lits):
+    """a parent (random severity) whose 2-3 sibling property shapes have different severities and mostly fail"""
+    u = _uid(rng)
+    iri_nodes = [n for n in nodes if isinstance(n, URIRef)]
+    parent = new_shape(EX["SP%s" % u], None)
+    parent["sev"] = rng.choice(SEVERITIES)
+    parent["targets"]["nodes"] = rng.sample(iri_nodes, min(2, len(iri_nodes)))
+    sevs = [SH.Warning, SH.Info, None, SH.Violation, EX.CustomSeverity]
+    rng.shuffle(sevs)
+    props = []
+    for k in range(rng.randint(2, 3)):
+        ps = new_shape(BNode("sp%s_%d" % (u, k)) if rng.random() < 0.7 else EX["SPP%s_%d" % (u, k)], ("pred", rng.choice(PREDS)))
+        ps["sev"] = sevs[k]
+        ps["comps"].append(rng.choice([("mincount", 4), ("hasvalue", [EX.absent]), ("maxcount", 0), ("in", [])]))
+        if rng.random() < 0.3 and ps["comps"][0][0] != "mincount":
+            ps["comps"].append(("mincount", 5))
+        props.append(ps)
+    if rng.random() < 0.5:
+        parent["comps"].append(gen_leaf(rng, False, nodes, lits))
+    parent["comps"].append(("property", [p["id"] for p in props]))
+    if rng.random() < 0.4 and not any(c[0] == "in" for c in parent["comps"]):
+        parent["comps"].append(("in", []))
+    rng.shuffle(parent["comps"])
+    return [parent] + props
+
+
+def add_templates(rng, shapes, nodes, lits, p=0.5):
+    if rng.random() < p:
+        shapes.extend(tmpl_qualified(rng, nodes, lits))
+    if rng.random() < p:
+        shapes.extend(tmpl_severity(rng, nodes, lits))
+    return shapes
+
+
 def shapes_to_rdf(shapes, explicit_types=True):
     g = rdflib.Graph()
     g.bind("ex", EX)
